@@ -393,7 +393,7 @@ func (cr *concIdmRun) note(kind string, p iprog, e *iexec, seqs []iseq) {
 				cls = strings.Fields(r)[0]
 			}
 			cs = append(cs, c.kind+"="+cls)
-			fc = append(fc, fcall{c.kind, []string{c.a, c.b}, r})
+			fc = append(fc, fcall{c.kind, []string{c.a, c.b}, r, e.s.Threads[ti].Inv[ci], e.s.Threads[ti].Resp[ci]})
 		}
 		parts = append(parts, strings.Join(cs, ","))
 		calls = append(calls, fc)
